@@ -446,4 +446,838 @@ theorem skipSpaces_append (cc : CharClass) {ws rest : List Char} (hw : ∀ c ∈
     (hr : NoHead cc.isWs rest) : skipSpaces cc (ws ++ rest) = rest := by
   unfold skipSpaces; rw [List.dropWhile_append_of_pos hw, dropWhile_noHead hr]
 
+-- character classes ------------------------------------------------------------------------------------
+
+/-- ASCII letter -/
+def isLetter (c : Char) : Bool := ('a' ≤ c && c ≤ 'z') || ('A' ≤ c && c ≤ 'Z')
+
+/-- what C13/C16 need of the two Unicode-aware character classes (all true of Rust's `char::is_whitespace`,
+    `is_alphanumeric`, `is_alphabetic`): ASCII letters are alphabetic and alphanumeric; ASCII digits are alphanumeric
+    and not alphabetic; a whitespace character is not alphanumeric and is none of `, [ ] + -`; newline and blank
+    are whitespace -/
+structure SaneClasses (cc : CharClass) : Prop where
+  letter : ∀ c, isLetter c = true → cc.isAlpha c = true ∧ cc.isAlnum c = true
+  digit : ∀ c, isDigit c = true → cc.isAlnum c = true ∧ cc.isAlpha c = false
+  ws : ∀ c, cc.isWs c = true → cc.isAlnum c = false ∧ c ≠ ',' ∧ c ≠ '[' ∧ c ≠ ']' ∧ c ≠ '+' ∧ c ≠ '-'
+  nl : cc.isWs '\n' = true
+  sp : cc.isWs ' ' = true
+
+theorem isHexDigit_cases {c : Char} (h : isHexDigit c = true) : isDigit c = true ∨ isLetter c = true := by
+  simp only [isHexDigit, isLetter, isDigit, Bool.or_eq_true, Bool.and_eq_true, decide_eq_true_eq, Char.le_def] at *
+  have : 'f'.val ≤ 'z'.val := by decide
+  have : 'F'.val ≤ 'Z'.val := by decide
+  rcases h with (h | h) | h
+  · exact .inl h
+  · exact .inr (.inl ⟨h.1, UInt32.le_trans h.2 ‹_›⟩)
+  · exact .inr (.inr ⟨h.1, UInt32.le_trans h.2 ‹_›⟩)
+
+/-- the characters that may follow an operand: `,` `]` `+` `-`, whitespace, or the end of the text -/
+def Stop (cc : CharClass) (rest : List Char) : Prop :=
+  ∀ c, rest.head? = some c → c = ',' ∨ c = ']' ∨ c = '+' ∨ c = '-' ∨ cc.isWs c = true
+
+theorem ws_not_hex {cc} (hcc : SaneClasses cc) {c : Char} (h : cc.isWs c = true) : isHexDigit c = false := by
+  cases hh : isHexDigit c with
+  | false => rfl
+  | true =>
+    have h1 := (hcc.ws c h).1
+    rcases isHexDigit_cases hh with hd | hl
+    · rw [(hcc.digit c hd).1] at h1; cases h1
+    · rw [(hcc.letter c hl).2] at h1; cases h1
+
+theorem ws_not_digit {cc} (hcc : SaneClasses cc) {c : Char} (h : cc.isWs c = true) : isDigit c = false := by
+  cases hh : isDigit c with
+  | false => rfl
+  | true => have := ws_not_hex hcc h; rw [isHexDigit_of_isDigit hh] at this; cases this
+
+theorem ws_not_letter {cc} (hcc : SaneClasses cc) {c : Char} (h : cc.isWs c = true) : isLetter c = false := by
+  cases hh : isLetter c with
+  | false => rfl
+  | true => have h1 := (hcc.ws c h).1; rw [(hcc.letter c hh).2] at h1; cases h1
+
+theorem stop_char {cc} (hcc : SaneClasses cc) {c : Char}
+    (h : c = ',' ∨ c = ']' ∨ c = '+' ∨ c = '-' ∨ cc.isWs c = true) :
+    isDigit c = false ∧ isHexDigit c = false ∧ c ≠ 'x' := by
+  rcases h with h | h | h | h | h
+  · subst h; decide
+  · subst h; decide
+  · subst h; decide
+  · subst h; decide
+  · refine ⟨ws_not_digit hcc h, ws_not_hex hcc h, ?_⟩
+    intro hx; subst hx
+    have := ws_not_letter hcc h
+    exact absurd this (by decide)
+
+theorem Stop.noDigit {cc} (hcc : SaneClasses cc) {rest} (h : Stop cc rest) : NoHead isDigit rest :=
+  fun c hc => (stop_char hcc (h c hc)).1
+theorem Stop.noHex {cc} (hcc : SaneClasses cc) {rest} (h : Stop cc rest) : NoHead isHexDigit rest :=
+  fun c hc => (stop_char hcc (h c hc)).2.1
+
+theorem stop_nil (cc) : Stop cc [] := fun c h => by simp at h
+theorem stop_cons {cc c rest} (h : c = ',' ∨ c = ']' ∨ c = '+' ∨ c = '-' ∨ cc.isWs c = true) : Stop cc (c :: rest) :=
+  fun c' h' => by simp at h'; subst h'; exact h
+
+-- numbers ----------------------------------------------------------------------------------------------
+
+/-- the decimal branch of `unsignedNumber` -/
+def decNumber (s : List Char) : PR (Nat × Bool) :=
+  match span1 isDigit s with
+  | some (ds, rest) => if decValue ds < 2 ^ 64 then .ok (decValue ds, false) rest else .errCommit
+  | none => .errEmpty
+
+theorem unsignedNumber_dec (s : List Char) (h : ∀ t, s ≠ '0' :: 'x' :: t) : unsignedNumber s = decNumber s := by
+  unfold unsignedNumber decNumber
+  split
+  · exact absurd rfl (h _)
+  · rfl
+
+theorem unsignedNumber_decText {cc} (hcc : SaneClasses cc) {ds rest : List Char} (hne : ds ≠ [])
+    (hd : ∀ c ∈ ds, isDigit c = true) (hr : Stop cc rest) (hv : decValue ds < 2 ^ 64) :
+    unsignedNumber (ds ++ rest) = .ok (decValue ds, false) rest := by
+  rw [unsignedNumber_dec]
+  · unfold decNumber; rw [span1_append hne hd (hr.noDigit hcc)]; simp [hv]
+  · intro t ht
+    rcases ds with _ | ⟨d, _ | ⟨d2, ds⟩⟩
+    · exact hne rfl
+    · cases rest with
+      | nil => simp at ht
+      | cons c rest =>
+        simp at ht
+        exact (stop_char hcc (hr c rfl)).2.2 ht.2.1
+    · simp at ht
+      have := hd d2 (by simp)
+      rw [ht.2.1] at this; revert this; decide
+
+theorem unsignedNumber_hexText {cc} (hcc : SaneClasses cc) {ds rest : List Char} (hne : ds ≠ [])
+    (hd : ∀ c ∈ ds, isHexDigit c = true) (hr : Stop cc rest) (hv : hexValue ds < 2 ^ 64) :
+    unsignedNumber ('0' :: 'x' :: (ds ++ rest)) = .ok (hexValue ds, true) rest := by
+  unfold unsignedNumber
+  simp only [span1_append hne hd (hr.noHex hcc), hv, if_true]
+
+/-- how a numeric literal is written: sign (`-`, explicit `+`, none), radix, case of hex digits, leading zeros,
+    magnitude -/
+structure NumSpelling where
+  neg : Bool
+  plus : Bool
+  hex : Bool
+  upper : Bool
+  zeros : Nat
+  mag : Nat
+
+def NumSpelling.body (sp : NumSpelling) : List Char :=
+  if sp.hex then '0' :: 'x' :: (List.replicate sp.zeros '0' ++ hexDigits sp.upper sp.mag)
+  else List.replicate sp.zeros '0' ++ decDigits sp.mag
+
+def NumSpelling.text (sp : NumSpelling) : List Char :=
+  if sp.neg then '-' :: sp.body else if sp.plus then '+' :: sp.body else sp.body
+
+theorem replicate_zero_isDigit (z : Nat) : ∀ c ∈ List.replicate z '0', isDigit c = true := by
+  intro c hc; rw [List.mem_replicate] at hc; rw [hc.2]; decide
+
+theorem NumSpelling.body_head (sp : NumSpelling) : ∃ d t, sp.body = d :: t ∧ isDigit d = true := by
+  unfold NumSpelling.body
+  split
+  · exact ⟨_, _, rfl, by decide⟩
+  · have hall : ∀ c ∈ List.replicate sp.zeros '0' ++ decDigits sp.mag, isDigit c = true := by
+      intro c hc; rw [List.mem_append] at hc
+      rcases hc with hc | hc
+      · exact replicate_zero_isDigit _ c hc
+      · exact decDigits_isDigit _ c hc
+    cases hb : List.replicate sp.zeros '0' ++ decDigits sp.mag with
+    | nil => simp [decDigits_ne_nil] at hb
+    | cons d t => exact ⟨d, t, rfl, hall d (by rw [hb]; simp)⟩
+
+theorem unsignedNumber_body {cc} (hcc : SaneClasses cc) (sp : NumSpelling) (hm : sp.mag < 2 ^ 64) {rest}
+    (hr : Stop cc rest) : unsignedNumber (sp.body ++ rest) = .ok (sp.mag, sp.hex) rest := by
+  unfold NumSpelling.body
+  cases hh : sp.hex with
+  | true =>
+    simp only [if_true, List.cons_append]
+    have hv := hexValue_zeros_append sp.zeros (hexDigits sp.upper sp.mag)
+    rw [hexValue_hexDigits] at hv
+    rw [unsignedNumber_hexText hcc (by simp [hexDigits_ne_nil]) _ hr (by rw [hv]; exact hm), hv]
+    intro c hc; rw [List.mem_append] at hc
+    rcases hc with hc | hc
+    · exact isHexDigit_of_isDigit (replicate_zero_isDigit _ c hc)
+    · exact hexDigits_isHexDigit _ _ c hc
+  | false =>
+    simp only [Bool.false_eq_true, if_false]
+    have hv := decValue_zeros_append sp.zeros (decDigits sp.mag)
+    rw [decValue_decDigits] at hv
+    rw [unsignedNumber_decText hcc (by simp [decDigits_ne_nil]) _ hr (by rw [hv]; exact hm), hv]
+    intro c hc; rw [List.mem_append] at hc
+    rcases hc with hc | hc
+    · exact replicate_zero_isDigit _ c hc
+    · exact decDigits_isDigit _ c hc
+
+/-- the continuation of `integer` after the optional sign -/
+def integerFin (neg consumedSign : Bool) (t : List Char) : PR Int :=
+  match unsignedNumber t with
+  | .ok (m, isHex) rest =>
+    match applySign neg m isHex with
+    | some v => .ok v rest
+    | none => .errCommit
+  | .errEmpty => if consumedSign then .errCommit else .errEmpty
+  | .errCommit => .errCommit
+  | .panic => .panic
+
+theorem integer_eq (s : List Char) : integer s =
+    match s with
+    | '-' :: t => integerFin true true t
+    | '+' :: t => integerFin false true t
+    | _ => integerFin false false s := rfl
+
+theorem integer_unsigned (s : List Char) (h1 : ∀ t, s ≠ '-' :: t) (h2 : ∀ t, s ≠ '+' :: t) :
+    integer s = integerFin false false s := by
+  rw [integer_eq]
+  split
+  · exact absurd rfl (h1 _)
+  · exact absurd rfl (h2 _)
+  · rfl
+
+theorem integer_text {cc} (hcc : SaneClasses cc) (sp : NumSpelling) (hm : sp.mag < 2 ^ 64) {rest}
+    (hr : Stop cc rest) {v : Int} (hv : applySign sp.neg sp.mag sp.hex = some v) :
+    integer (sp.text ++ rest) = .ok v rest := by
+  have hu := unsignedNumber_body hcc sp hm hr
+  unfold NumSpelling.text
+  cases hn : sp.neg with
+  | true =>
+    simp only [if_true, List.cons_append, integer_eq, integerFin, hu]
+    rw [hn] at hv; simp only [hv]
+  | false =>
+    rw [hn] at hv
+    cases hp : sp.plus with
+    | true =>
+      simp only [Bool.false_eq_true, if_false, if_true, List.cons_append, integer_eq, integerFin, hu]
+      simp only [hv]
+    | false =>
+      simp only [Bool.false_eq_true, if_false]
+      obtain ⟨d, t, hb, hd⟩ := sp.body_head
+      rw [integer_unsigned, integerFin, hu]
+      · simp only [hv]
+      · intro t' ht; rw [hb] at ht; simp at ht; rw [ht.1] at hd; revert hd; decide
+      · intro t' ht; rw [hb] at ht; simp at ht; rw [ht.1] at hd; revert hd; decide
+
+-- operands ---------------------------------------------------------------------------------------------
+
+theorem register_text {cc} (hcc : SaneClasses cc) (r : Nat) (hr : r < 2 ^ 63) {rest : List Char}
+    (hs : NoHead isDigit rest) : register cc ('r' :: (decDigits r ++ rest)) = .ok (r : Int) rest := by
+  have hd := decDigits_isDigit r
+  cases hb : decDigits r with
+  | nil => exact absurd hb (decDigits_ne_nil r)
+  | cons d t =>
+    have hdd : isDigit d = true := hd d (by rw [hb]; simp)
+    have hsp : span1 isDigit (d :: t ++ rest) = some (d :: t, rest) :=
+      span1_append (by simp) (by rw [← hb]; exact hd) hs
+    have hv : decValue (d :: t) = r := by rw [← hb]; exact decValue_decDigits r
+    simp only [register, List.cons_append, (hcc.digit d hdd).2, Bool.false_eq_true, if_false]
+    rw [List.cons_append] at hsp
+    simp only [hsp, hv, hr, if_true]
+
+theorem register_errEmpty_of_ne {cc} (s : List Char) (h : ∀ t, s ≠ 'r' :: t) : register cc s = .errEmpty := by
+  unfold register
+  split
+  · exact absurd rfl (h _)
+  · rfl
+
+theorem register_errEmpty_of_alpha {cc} (c : Char) (t : List Char) (h : cc.isAlpha c = true) :
+    register cc ('r' :: c :: t) = .errEmpty := by
+  simp [register, h]
+
+/-- a text that starts no operand: empty, or beginning with an ASCII letter which, if it is `r`, is followed by
+    another ASCII letter (a mnemonic such as `rsh`) -/
+def NameStart (s : List Char) : Prop :=
+  ∃ c t, s = c :: t ∧ isLetter c = true ∧ (c = 'r' → ∃ c2 t2, t = c2 :: t2 ∧ isLetter c2 = true)
+
+theorem letter_not_digit {c : Char} (h : isLetter c = true) : isDigit c = false := by
+  cases hd : isDigit c with
+  | false => rfl
+  | true =>
+    exfalso
+    simp only [isLetter, isDigit, Bool.or_eq_true, Bool.and_eq_true, decide_eq_true_eq, Char.le_def] at h hd
+    have h1 : '9'.val < 'a'.val := by decide
+    have h2 : '9'.val < 'A'.val := by decide
+    rcases h with h | h
+    · exact absurd (UInt32.lt_of_lt_of_le (UInt32.lt_of_le_of_lt hd.2 h1) h.1) (UInt32.lt_irrefl _)
+    · exact absurd (UInt32.lt_of_lt_of_le (UInt32.lt_of_le_of_lt hd.2 h2) h.1) (UInt32.lt_irrefl _)
+
+theorem integerFin_errEmpty (s : List Char) (h : NoHead isDigit s) : integerFin false false s = .errEmpty := by
+  have h0 : ∀ t, s ≠ '0' :: 'x' :: t := by
+    intro t ht; subst ht; have := h '0' rfl; revert this; decide
+  simp [integerFin, unsignedNumber_dec s h0, decNumber, span1_noHead h]
+
+theorem integer_errEmpty (s : List Char) (h : NoHead isDigit s) (h1 : ∀ t, s ≠ '-' :: t) (h2 : ∀ t, s ≠ '+' :: t) :
+    integer s = .errEmpty := by
+  rw [integer_unsigned s h1 h2, integerFin_errEmpty s h]
+
+theorem memory_errEmpty {cc} (s : List Char) (h : ∀ t, s ≠ '[' :: t) : memory cc s = .errEmpty := by
+  unfold memory
+  split
+  · exact absurd rfl (h _)
+  · rfl
+
+theorem operand_errEmpty_nil {cc} : operand cc [] = .errEmpty := by
+  simp [operand, register, integer_eq, integerFin, unsignedNumber, span1, List.span, List.span.loop, memory]
+
+theorem operand_errEmpty {cc} (hcc : SaneClasses cc) {s : List Char} (h : s = [] ∨ NameStart s) :
+    operand cc s = .errEmpty := by
+  rcases h with h | ⟨c, t, hs, hl, hr⟩
+  · subst h; exact operand_errEmpty_nil
+  · subst hs
+    have hreg : register cc (c :: t) = .errEmpty := by
+      by_cases hc : c = 'r'
+      · obtain ⟨c2, t2, ht, hl2⟩ := hr hc
+        subst hc ht
+        exact register_errEmpty_of_alpha _ _ (hcc.letter c2 hl2).1
+      · exact register_errEmpty_of_ne _ (by intro t' ht; simp at ht; exact hc ht.1)
+    have hint : integer (c :: t) = .errEmpty := by
+      apply integer_errEmpty
+      · intro c' hc'; simp at hc'; subst hc'; exact letter_not_digit hl
+      · intro t' ht; simp at ht; rw [ht.1] at hl; revert hl; decide
+      · intro t' ht; simp at ht; rw [ht.1] at hl; revert hl; decide
+    have hmem : memory cc (c :: t) = .errEmpty := by
+      apply memory_errEmpty
+      intro t' ht; simp at ht; rw [ht.1] at hl; revert hl; decide
+    simp [operand, hreg, hint, hmem]
+
+/-- `t` is a spelling of the operand `o`: `rN` (decimal), a numeric literal, `[rN]`, `[rN±literal]` -/
+inductive OperandText : List Char → Operand → Prop
+  | reg (r : Nat) (h : r < 2 ^ 63) : OperandText ('r' :: decDigits r) (.register r)
+  | int (sp : NumSpelling) (v : Int) (hm : sp.mag < 2 ^ 64) (hv : applySign sp.neg sp.mag sp.hex = some v) :
+      OperandText sp.text (.integer v)
+  | mem0 (r : Nat) (h : r < 2 ^ 63) : OperandText ('[' :: 'r' :: (decDigits r ++ [']'])) (.memory r 0)
+  | mem (r : Nat) (h : r < 2 ^ 63) (sp : NumSpelling) (off : Int) (hm : sp.mag < 2 ^ 64)
+      (hv : applySign sp.neg sp.mag sp.hex = some off) (hs : sp.neg = true ∨ sp.plus = true) :
+      OperandText ('[' :: 'r' :: (decDigits r ++ (sp.text ++ [']']))) (.memory r off)
+
+theorem NumSpelling.text_head (sp : NumSpelling) :
+    ∃ d t, sp.text = d :: t ∧ (d = '-' ∨ d = '+' ∨ isDigit d = true) ∧ (sp.neg = true ∨ sp.plus = true → d = '-' ∨ d = '+') := by
+  unfold NumSpelling.text
+  cases sp.neg with
+  | true => exact ⟨_, _, rfl, .inl rfl, fun _ => .inl rfl⟩
+  | false =>
+    cases sp.plus with
+    | true => exact ⟨_, _, rfl, .inr (.inl rfl), fun _ => .inr rfl⟩
+    | false =>
+      obtain ⟨d, t, hb, hd⟩ := sp.body_head
+      exact ⟨d, t, by simpa using hb, .inr (.inr hd), fun h => by simp at h⟩
+
+theorem operand_text {cc} (hcc : SaneClasses cc) {t : List Char} {o : Operand} (ht : OperandText t o)
+    {rest : List Char} (hr : Stop cc rest) : operand cc (t ++ rest) = .ok o rest := by
+  cases ht with
+  | reg r h =>
+    simp only [List.cons_append, operand, register_text hcc r h (hr.noDigit hcc)]
+  | int sp v hm hv =>
+    obtain ⟨d, t, htx, hd, -⟩ := sp.text_head
+    have hreg : register cc (sp.text ++ rest) = .errEmpty := by
+      apply register_errEmpty_of_ne
+      intro t' ht'; rw [htx] at ht'; simp at ht'
+      rcases hd with hd | hd | hd <;> (rw [ht'.1] at hd; revert hd; decide)
+    simp only [operand, hreg, integer_text hcc sp hm hr hv]
+  | mem0 r h =>
+    have hreg : register cc ('[' :: 'r' :: (decDigits r ++ [']']) ++ rest) = .errEmpty :=
+      register_errEmpty_of_ne _ (by intro t' ht'; simp at ht')
+    have hint : integer ('[' :: 'r' :: (decDigits r ++ [']']) ++ rest) = .errEmpty := by
+      apply integer_errEmpty
+      · intro c hc; simp at hc; subst hc; decide
+      · intro t' ht'; simp at ht'
+      · intro t' ht'; simp at ht'
+    have hr2 : register cc ('r' :: (decDigits r ++ ']' :: rest)) = .ok (r : Int) (']' :: rest) :=
+      register_text hcc r h (by intro c hc; simp at hc; subst hc; decide)
+    have hi2 : integer (']' :: rest) = .errEmpty := by
+      apply integer_errEmpty
+      · intro c hc; simp at hc; subst hc; decide
+      · intro t' ht'; simp at ht'
+      · intro t' ht'; simp at ht'
+    simp only [operand, hreg, hint]
+    simp only [List.cons_append, List.append_assoc, List.nil_append, memory, hr2, hi2]
+  | mem r h sp off hm hv hs =>
+    have hreg : register cc ('[' :: 'r' :: (decDigits r ++ (sp.text ++ [']'])) ++ rest) = .errEmpty :=
+      register_errEmpty_of_ne _ (by intro t' ht'; simp at ht')
+    have hint : integer ('[' :: 'r' :: (decDigits r ++ (sp.text ++ [']'])) ++ rest) = .errEmpty := by
+      apply integer_errEmpty
+      · intro c hc; simp at hc; subst hc; decide
+      · intro t' ht'; simp at ht'
+      · intro t' ht'; simp at ht'
+    obtain ⟨d, t, htx, -, hd⟩ := sp.text_head
+    have hr2 : register cc ('r' :: (decDigits r ++ (sp.text ++ ']' :: rest))) = .ok (r : Int) (sp.text ++ ']' :: rest) := by
+      apply register_text hcc r h
+      intro c hc; rw [htx] at hc; simp at hc; subst hc
+      rcases hd hs with hd | hd <;> (rw [hd]; decide)
+    have hi2 : integer (sp.text ++ ']' :: rest) = .ok off (']' :: rest) :=
+      integer_text hcc sp hm (stop_cons (.inr (.inl rfl))) hv
+    simp only [operand, hreg, hint]
+    simp only [List.cons_append, List.append_assoc, List.nil_append, memory, hr2, hi2]
+
+/-- an operand text begins with none of the whitespace characters -/
+theorem OperandText.noWs {cc} (hcc : SaneClasses cc) {t o} (ht : OperandText t o) (rest : List Char) :
+    NoHead cc.isWs (t ++ rest) := by
+  intro c hc
+  cases hw : cc.isWs c with
+  | false => rfl
+  | true =>
+    exfalso
+    have hws := hcc.ws c hw
+    cases ht with
+    | reg r h =>
+      simp at hc; subst hc
+      exact absurd (ws_not_letter hcc hw) (by decide)
+    | int sp v hm hv =>
+      obtain ⟨d, t, htx, hd, -⟩ := sp.text_head
+      rw [htx] at hc; simp at hc; subst hc
+      rcases hd with hd | hd | hd
+      · exact hws.2.2.2.2.2 hd
+      · exact hws.2.2.2.2.1 hd
+      · rw [ws_not_digit hcc hw] at hd; cases hd
+    | mem0 r h => simp at hc; exact hws.2.2.1 hc.symm
+    | mem r h sp off hm hv hs => simp at hc; exact hws.2.2.1 hc.symm
+
+-- operand lists, instructions, programs ----------------------------------------------------------------
+
+/-- the operand texts after the first: each preceded by a comma and the whitespace `ws` -/
+def tailText (ws : List Char) : List (List Char × Operand) → List Char
+  | [] => []
+  | (t, _) :: rest => ',' :: (ws ++ (t ++ tailText ws rest))
+
+/-- an operand list: the texts separated by a comma and the whitespace `ws` -/
+def opsText (ws : List Char) : List (List Char × Operand) → List Char
+  | [] => []
+  | (t, _) :: rest => t ++ tailText ws rest
+
+theorem length_tailText (ws : List Char) (ops : List (List Char × Operand)) :
+    ops.length ≤ (tailText ws ops).length := by
+  induction ops with
+  | nil => simp [tailText]
+  | cons p ops ih => obtain ⟨t, o⟩ := p; simp [tailText]; omega
+
+/-- the text after an operand list: empty or beginning with whitespace -/
+def End (cc : CharClass) (rest : List Char) : Prop := ∀ c, rest.head? = some c → cc.isWs c = true
+
+theorem End.stop {cc rest} (h : End cc rest) : Stop cc rest :=
+  fun c hc => .inr (.inr (.inr (.inr (h c hc))))
+
+theorem End.noComma {cc} (hcc : SaneClasses cc) {rest} (h : End cc rest) : ∀ t, rest ≠ ',' :: t := by
+  intro t ht; subst ht
+  exact (hcc.ws ',' (h ',' rfl)).2.1 rfl
+
+theorem operandsTail_text {cc} (hcc : SaneClasses cc) {ws : List Char} (hws : ∀ c ∈ ws, cc.isWs c = true)
+    (ops : List (List Char × Operand)) (hops : ∀ p ∈ ops, OperandText p.1 p.2) {rest : List Char}
+    (hr : End cc rest) (fuel : Nat) (hf : ops.length ≤ fuel) (acc : List Operand) :
+    operandsTail cc fuel (tailText ws ops ++ rest) acc = .ok (acc.reverse ++ ops.map (·.2)) rest := by
+  induction ops generalizing fuel acc with
+  | nil =>
+    simp only [tailText, List.nil_append, List.map_nil, List.append_nil]
+    cases fuel with
+    | zero => rfl
+    | succ f =>
+      unfold operandsTail
+      split
+      · exact absurd rfl (hr.noComma hcc _)
+      · rfl
+  | cons p ops ih =>
+    obtain ⟨t, o⟩ := p
+    cases fuel with
+    | zero => simp at hf
+    | succ f =>
+      have hto : OperandText t o := hops (t, o) (by simp)
+      have hstop : Stop cc (tailText ws ops ++ rest) := by
+        cases ops with
+        | nil => simpa [tailText] using hr.stop
+        | cons q ops => obtain ⟨t', o'⟩ := q; exact stop_cons (.inl rfl)
+      have hsk : skipSpaces cc (ws ++ (t ++ (tailText ws ops ++ rest))) = t ++ (tailText ws ops ++ rest) :=
+        skipSpaces_append cc hws (hto.noWs hcc _)
+      simp only [tailText, List.cons_append, List.append_assoc, operandsTail, hsk, operand_text hcc hto hstop]
+      rw [ih (fun p hp => hops p (List.mem_cons_of_mem _ hp)) f (by simpa using hf)]
+      simp
+
+theorem operands_text {cc} (hcc : SaneClasses cc) {ws : List Char} (hws : ∀ c ∈ ws, cc.isWs c = true)
+    (ops : List (List Char × Operand)) (hne : ops ≠ []) (hops : ∀ p ∈ ops, OperandText p.1 p.2) {rest : List Char}
+    (hr : End cc rest) : operands cc (opsText ws ops ++ rest) = .ok (ops.map (·.2)) rest := by
+  cases ops with
+  | nil => exact absurd rfl hne
+  | cons p ops =>
+    obtain ⟨t, o⟩ := p
+    have hto : OperandText t o := hops (t, o) (by simp)
+    have hstop : Stop cc (tailText ws ops ++ rest) := by
+      cases ops with
+      | nil => simpa [tailText] using hr.stop
+      | cons q ops => obtain ⟨t', o'⟩ := q; exact stop_cons (.inl rfl)
+    simp only [opsText, List.append_assoc, operands, operand_text hcc hto hstop]
+    rw [operandsTail_text hcc hws ops (fun p hp => hops p (List.mem_cons_of_mem _ hp)) hr]
+    · simp
+    · have := length_tailText ws ops; simp; omega
+
+theorem operands_none {cc} (hcc : SaneClasses cc) {s : List Char} (h : s = [] ∨ NameStart s) :
+    operands cc s = .ok [] s := by
+  simp only [operands, operand_errEmpty hcc h]
+
+/-- one instruction of a program text: mnemonic, whitespace after it, the operand texts with the operands they
+    spell, the whitespace after each comma, and the whitespace that follows the instruction -/
+structure InsnText where
+  name : List Char
+  afterName : List Char
+  afterComma : List Char
+  ops : List (List Char × Operand)
+  sep : List Char
+
+def InsnText.text (x : InsnText) : List Char :=
+  x.name ++ (x.afterName ++ (opsText x.afterComma x.ops ++ x.sep))
+
+def InsnText.instr (x : InsnText) : Instruction := { name := x.name, operands := x.ops.map (·.2) }
+
+/-- a mnemonic-like word: ASCII letters and digits, beginning with a letter, and not of the form `r<non-letter>…` -/
+structure NameOk (name : List Char) : Prop where
+  chars : ∀ c ∈ name, isLetter c = true ∨ isDigit c = true
+  start : NameStart name
+
+structure InsnTextOk (cc : CharClass) (x : InsnText) : Prop where
+  name : NameOk x.name
+  afterName : ∀ c ∈ x.afterName, cc.isWs c = true
+  afterComma : ∀ c ∈ x.afterComma, cc.isWs c = true
+  sep : ∀ c ∈ x.sep, cc.isWs c = true
+  gap : x.ops ≠ [] → x.afterName ≠ []
+  ops : ∀ p ∈ x.ops, OperandText p.1 p.2
+
+theorem NameStart.append {s : List Char} (h : NameStart s) (more : List Char) : NameStart (s ++ more) := by
+  obtain ⟨c, t, hs, hl, hr⟩ := h
+  refine ⟨c, t ++ more, by rw [hs]; rfl, hl, fun hc => ?_⟩
+  obtain ⟨c2, t2, ht, hl2⟩ := hr hc
+  exact ⟨c2, t2 ++ more, by rw [ht]; rfl, hl2⟩
+
+theorem NameStart.noWs {cc} (hcc : SaneClasses cc) {s : List Char} (h : s = [] ∨ NameStart s) : NoHead cc.isWs s := by
+  intro c hc
+  rcases h with h | ⟨c', t, hs, hl, -⟩
+  · subst h; simp at hc
+  · subst hs; simp at hc; subst hc
+    cases hw : cc.isWs c' with
+    | false => rfl
+    | true => rw [ws_not_letter hcc hw] at hl; cases hl
+
+theorem end_ws_append {cc} {ws next : List Char} (hws : ∀ c ∈ ws, cc.isWs c = true) (h : ws = [] → next = []) :
+    End cc (ws ++ next) := by
+  intro c hc
+  cases ws with
+  | nil => rw [h rfl] at hc; simp at hc
+  | cons w ws => simp at hc; subst hc; exact hws _ (by simp)
+
+theorem End.noAlnum {cc} (hcc : SaneClasses cc) {rest} (h : End cc rest) : NoHead cc.isAlnum rest :=
+  fun c hc => (hcc.ws c (h c hc)).1
+
+theorem instruction_text {cc} (hcc : SaneClasses cc) (x : InsnText) (hx : InsnTextOk cc x) (next : List Char)
+    (hn : next = [] ∨ (x.sep ≠ [] ∧ NameStart next)) :
+    instruction cc (x.text ++ next) = .ok x.instr next := by
+  have hnext : next = [] ∨ NameStart next := hn.imp id (·.2)
+  have hsepnext : x.sep = [] → next = [] := by
+    intro hs; rcases hn with h | h
+    · exact h
+    · exact absurd hs h.1
+  have hname_ne : x.name ≠ [] := by
+    obtain ⟨c, t, hs, -, -⟩ := hx.name.start; rw [hs]; simp
+  have hname_alnum : ∀ c ∈ x.name, cc.isAlnum c = true := by
+    intro c hc
+    rcases hx.name.chars c hc with h | h
+    · exact (hcc.letter c h).2
+    · exact (hcc.digit c h).1
+  have hsk2 : skipSpaces cc (x.sep ++ next) = next := skipSpaces_append cc hx.sep (NameStart.noWs hcc hnext)
+  unfold InsnText.text InsnText.instr
+  by_cases hops : x.ops = []
+  · -- no operands: the whitespace runs up to the next mnemonic
+    have hR : End cc ((x.afterName ++ x.sep) ++ next) :=
+      end_ws_append (by intro c hc; rw [List.mem_append] at hc; exact hc.elim (hx.afterName c) (hx.sep c))
+        (by intro h; simp at h; exact hsepnext h.2)
+    have hid : ident cc (x.name ++ ((x.afterName ++ x.sep) ++ next)) = .ok x.name ((x.afterName ++ x.sep) ++ next) := by
+      simp only [ident, span1_append hname_ne hname_alnum (hR.noAlnum hcc)]
+    have hsk : skipSpaces cc ((x.afterName ++ x.sep) ++ next) = next :=
+      skipSpaces_append cc (by intro c hc; rw [List.mem_append] at hc; exact hc.elim (hx.afterName c) (hx.sep c))
+        (NameStart.noWs hcc hnext)
+    have hsk3 : skipSpaces cc next = next := by
+      have := skipSpaces_append cc (ws := []) (by simp) (NameStart.noWs hcc hnext); simpa using this
+    simp only [hops, opsText, List.nil_append, List.map_nil, List.append_assoc] at hid ⊢
+    simp only [instruction, hid]
+    rw [← List.append_assoc, hsk]
+    simp only [operands_none hcc hnext, hsk3]
+  · have han := hx.gap hops
+    have hR : End cc (x.afterName ++ (opsText x.afterComma x.ops ++ (x.sep ++ next))) :=
+      end_ws_append hx.afterName (fun h => absurd h han)
+    have hid : ident cc (x.name ++ (x.afterName ++ (opsText x.afterComma x.ops ++ (x.sep ++ next)))) =
+        .ok x.name (x.afterName ++ (opsText x.afterComma x.ops ++ (x.sep ++ next))) := by
+      simp only [ident, span1_append hname_ne hname_alnum (hR.noAlnum hcc)]
+    have hnw : NoHead cc.isWs (opsText x.afterComma x.ops ++ (x.sep ++ next)) := by
+      cases hb : x.ops with
+      | nil => exact absurd hb hops
+      | cons p ops =>
+        obtain ⟨t, o⟩ := p
+        simp only [opsText, List.append_assoc]
+        exact (hx.ops (t, o) (by rw [hb]; simp)).noWs hcc _
+    have hsk : skipSpaces cc (x.afterName ++ (opsText x.afterComma x.ops ++ (x.sep ++ next))) =
+        opsText x.afterComma x.ops ++ (x.sep ++ next) := skipSpaces_append cc hx.afterName hnw
+    have hop := operands_text hcc hx.afterComma x.ops hops hx.ops (end_ws_append hx.sep hsepnext)
+    simp only [List.append_assoc]
+    simp only [instruction, hid, hsk, hop, hsk2]
+
+def progText : List InsnText → List Char
+  | [] => []
+  | x :: rest => x.text ++ progText rest
+
+/-- every instruction text is well-formed, and is followed by whitespace unless it ends the whole text -/
+def ProgOk (cc : CharClass) : List InsnText → List Char → Prop
+  | [], _ => True
+  | x :: rest, tail => InsnTextOk cc x ∧ (x.sep ≠ [] ∨ (rest = [] ∧ tail = [])) ∧ ProgOk cc rest tail
+
+theorem progText_start {cc} {xs : List InsnText} {tail : List Char} (hx : ProgOk cc xs tail)
+    (ht : tail = [] ∨ NameStart tail) : progText xs ++ tail = [] ∨ NameStart (progText xs ++ tail) := by
+  cases xs with
+  | nil => simpa [progText] using ht
+  | cons x rest =>
+    right
+    simp only [progText, InsnText.text, List.append_assoc]
+    exact hx.1.name.start.append _
+
+theorem parseLoop_progText {cc} (hcc : SaneClasses cc) (xs : List InsnText) (tail : List Char)
+    (ht : tail = [] ∨ NameStart tail) (hx : ProgOk cc xs tail) (fuel : Nat) (acc : List Instruction) :
+    parseLoop cc (fuel + xs.length) (progText xs ++ tail) acc =
+      parseLoop cc fuel tail ((xs.map (·.instr)).reverse ++ acc) := by
+  induction xs generalizing acc with
+  | nil => simp [progText]
+  | cons x rest ih =>
+    have hnext := progText_start hx.2.2 ht
+    have hn : progText rest ++ tail = [] ∨ (x.sep ≠ [] ∧ NameStart (progText rest ++ tail)) := by
+      rcases hx.2.1 with h | ⟨h1, h2⟩
+      · rcases hnext with h' | h'
+        · exact .inl h'
+        · exact .inr ⟨h, h'⟩
+      · subst h1 h2; left; rfl
+    have hstep := instruction_text hcc x hx.1 _ hn
+    simp only [progText, List.length_cons, ← Nat.add_assoc, List.append_assoc, parseLoop, hstep]
+    rw [ih hx.2.2]
+    simp
+
+theorem length_progText {cc} {xs : List InsnText} {tail} (hx : ProgOk cc xs tail) : xs.length ≤ (progText xs).length := by
+  induction xs with
+  | nil => simp
+  | cons x rest ih =>
+    have := ih hx.2.2
+    obtain ⟨c, t, hs, -, -⟩ := hx.1.name.start
+    simp [progText, InsnText.text, hs]; omega
+
+theorem parseLoop_nil {cc} (fuel : Nat) (acc : List Instruction) :
+    parseLoop cc (fuel + 1) [] acc = .ok acc.reverse := by
+  simp [parseLoop, instruction, ident, span1, List.span, List.span.loop]
+
+/-- the parser on a well-formed program text -/
+theorem parse_progText {cc} (hcc : SaneClasses cc) (lead : List Char) (hl : ∀ c ∈ lead, cc.isWs c = true)
+    (xs : List InsnText) (hx : ProgOk cc xs []) :
+    parse cc (lead ++ progText xs) = .ok (xs.map (·.instr)) := by
+  have hst := progText_start hx (.inl rfl)
+  simp only [List.append_nil] at hst
+  have hsk : skipSpaces cc (lead ++ progText xs) = progText xs := skipSpaces_append cc hl (NameStart.noWs hcc hst)
+  have hlen := length_progText hx
+  unfold parse
+  simp only [hsk]
+  have hf : (progText xs).length + 1 = ((progText xs).length - xs.length + 1) + xs.length := by omega
+  have := parseLoop_progText hcc xs [] (.inl rfl) hx ((progText xs).length - xs.length + 1) []
+  rw [List.append_nil] at this
+  rw [hf, this, parseLoop_nil]
+  simp
+
+-- the specification's spellings (`AsmSpec.render*`) as program texts ------------------------------------
+
+theorem wrapI64_eq (v : Int) : wrapI64 v = u64ToI64 (v % 2 ^ 64).toNat := rfl
+
+theorem applySign_natAbs (v : Int) (h : imm64Ok v) (hex : Bool) :
+    applySign (decide (v < 0)) v.natAbs hex = some v := by
+  unfold imm64Ok at h
+  simp only [Int.reducePow, Int.reduceNeg] at h
+  unfold applySign
+  cases hex with
+  | true =>
+    simp only [if_true, Option.some.injEq, wrapI64_eq, u64ToI64]
+    by_cases hv : v < 0
+    · simp only [hv, decide_true, if_true, Nat.reducePow, Int.reducePow]
+      split <;> split <;> omega
+    · simp only [hv, decide_false, Bool.false_eq_true, if_false, Nat.reducePow, Int.reducePow]
+      split <;> split <;> omega
+  | false =>
+    by_cases hv : v < 0
+    · simp [hv]; omega
+    · simp [hv]; omega
+
+/-- the `NumSpelling` of `renderInt st v` -/
+def spellingOf (st : IntStyle) (v : Int) : NumSpelling :=
+  { neg := decide (v < 0), plus := st.plus, hex := st.hex, upper := st.upper, zeros := st.zeros, mag := v.natAbs }
+
+theorem renderInt_eq (st : IntStyle) (v : Int) : renderInt st v = (spellingOf st v).text := by
+  unfold renderInt NumSpelling.text NumSpelling.body spellingOf
+  by_cases hv : v < 0 <;> simp [hv]
+
+theorem natAbs_lt_of_imm64Ok {v : Int} (h : imm64Ok v) : v.natAbs < 2 ^ 64 := by
+  unfold imm64Ok at h; simp only [Int.reducePow, Int.reduceNeg] at h; simp only [Nat.reducePow]; omega
+
+theorem renderOperand_text (st : IntStyle) (omitZero : Bool) (o : Operand) (ho : OperandI64 o) :
+    OperandText (renderOperand st omitZero o) o := by
+  cases o with
+  | register r =>
+    obtain ⟨h0, h1⟩ := ho
+    have hr : ((r.natAbs : Nat) : Int) = r := by omega
+    have := OperandText.reg r.natAbs (by simp only [Int.reducePow] at h1; simp only [Nat.reducePow]; omega)
+    rw [hr] at this
+    exact this
+  | integer v =>
+    have ho : imm64Ok v := ho
+    simp only [renderOperand, renderInt_eq]
+    exact OperandText.int _ v (natAbs_lt_of_imm64Ok ho) (applySign_natAbs v ho _)
+  | memory r off =>
+    obtain ⟨⟨h0, h1⟩, ho⟩ := ho
+    have hr : ((r.natAbs : Nat) : Int) = r := by omega
+    have hlt : r.natAbs < 2 ^ 63 := by simp only [Int.reducePow] at h1; simp only [Nat.reducePow]; omega
+    simp only [renderOperand, renderMem, renderReg]
+    split
+    · rename_i hz
+      have := OperandText.mem0 r.natAbs hlt
+      rw [hr, ← hz.1] at this
+      simpa using this
+    · have := OperandText.mem r.natAbs hlt (spellingOf { st with plus := true } off) off
+        (natAbs_lt_of_imm64Ok ho) (applySign_natAbs off ho _) (.inr rfl)
+      rw [hr, ← renderInt_eq] at this
+      simpa using this
+
+/-- the operand texts of `renderOperands`, paired with the operands -/
+def opTexts (l : Layout) : List Operand → List IntStyle → List (List Char × Operand)
+  | [], _ => []
+  | o :: rest, sts => (renderOperand (sts.headD {}) l.omitZero o, o) :: opTexts l rest sts.tail
+
+theorem renderOperands_eq (l : Layout) (ops : List Operand) (sts : List IntStyle) :
+    renderOperands l ops sts = opsText l.afterComma (opTexts l ops sts) := by
+  induction ops generalizing sts with
+  | nil => rfl
+  | cons o rest ih =>
+    cases rest with
+    | nil => simp [renderOperands, opTexts, opsText, tailText]
+    | cons o2 r =>
+      rw [renderOperands.eq_3 _ _ _ _ (by simp), ih]
+      simp [opTexts, opsText, tailText]
+
+theorem opTexts_snd (l : Layout) (ops : List Operand) (sts : List IntStyle) :
+    (opTexts l ops sts).map (·.2) = ops := by
+  induction ops generalizing sts with
+  | nil => rfl
+  | cons o rest ih => simp [opTexts, ih]
+
+theorem opTexts_ok (l : Layout) (ops : List Operand) (sts : List IntStyle) (h : ∀ o ∈ ops, OperandI64 o) :
+    ∀ p ∈ opTexts l ops sts, OperandText p.1 p.2 := by
+  induction ops generalizing sts with
+  | nil => intro p hp; simp [opTexts] at hp
+  | cons o rest ih =>
+    intro p hp
+    simp only [opTexts, List.mem_cons] at hp
+    rcases hp with hp | hp
+    · subst hp; exact renderOperand_text _ _ o (h o (by simp))
+    · exact ih _ (fun o ho => h o (List.mem_cons_of_mem _ ho)) p hp
+
+def toInsnText (e : Instruction × Layout × List Char) : InsnText :=
+  { name := e.1.name, afterName := e.2.1.afterName, afterComma := e.2.1.afterComma,
+    ops := opTexts e.2.1 e.1.operands e.2.1.styles, sep := e.2.2 }
+
+theorem toInsnText_instr (e : Instruction × Layout × List Char) : (toInsnText e).instr = e.1 := by
+  obtain ⟨⟨n, ops⟩, l, sep⟩ := e
+  simp [toInsnText, InsnText.instr, opTexts_snd]
+
+theorem renderProg_eq (lead : List Char) (prog : List (Instruction × Layout × List Char)) :
+    renderProg lead prog = lead ++ progText (prog.map toInsnText) := by
+  induction prog generalizing lead with
+  | nil => simp [renderProg, progText]
+  | cons e rest ih =>
+    obtain ⟨i, l, sep⟩ := e
+    rw [renderProg, ih []]
+    simp [progText, InsnText.text, toInsnText, renderInsn, renderOperands_eq]
+
+/-- Bool check of `NameOk` -/
+def nameOkB (name : List Char) : Bool :=
+  name.all (fun c => isLetter c || isDigit c) &&
+  match name with
+  | c :: t => isLetter c && (c != 'r' || match t with | c2 :: _ => isLetter c2 | [] => false)
+  | [] => false
+
+theorem nameOk_of_nameOkB {name : List Char} (h : nameOkB name = true) : NameOk name := by
+  unfold nameOkB at h
+  rw [Bool.and_eq_true] at h
+  obtain ⟨h1, h2⟩ := h
+  constructor
+  · intro c hc
+    have := List.all_eq_true.mp h1 c hc
+    simpa using this
+  · cases name with
+    | nil => simp at h2
+    | cons c t =>
+      simp only [Bool.and_eq_true, Bool.or_eq_true, bne_iff_ne, ne_eq] at h2
+      refine ⟨c, t, rfl, h2.1, fun hc => ?_⟩
+      rcases h2.2 with h | h
+      · exact absurd hc h
+      · cases t with
+        | nil => simp at h
+        | cons c2 t2 => exact ⟨c2, t2, rfl, h⟩
+
+set_option maxRecDepth 100000 in
+theorem table_nameOkB : ∀ r ∈ AsmSpec.table, nameOkB r.1.toList = true := by decide +kernel
+
+/-- every documented mnemonic is a well-formed name -/
+theorem nameOk_of_table {name : List Char} (h : ∃ r ∈ AsmSpec.table, r.1.toList = name) : NameOk name := by
+  obtain ⟨r, hr, rfl⟩ := h
+  exact nameOk_of_nameOkB (table_nameOkB r hr)
+
+/-- one instruction of a rendered program is laid out as the grammar allows: the mnemonic is a word of ASCII
+    letters and digits that begins with a letter and is not `r<non-letter>…` (true of every documented mnemonic,
+    `nameOk_of_table`); `afterName`, `afterComma` and the separator consist of whitespace; `afterName` is
+    non-empty when operands follow; register numbers lie in [0, 2^63), integers and memory offsets in
+    [-2^63, 2^63).  `styles` (radix, case, leading zeros, explicit `+`) and `omitZero` are arbitrary. -/
+structure InsnLaidOut (cc : CharClass) (i : Instruction) (l : Layout) (sep : List Char) : Prop where
+  name : NameOk i.name
+  afterName : ∀ c ∈ l.afterName, cc.isWs c = true
+  afterComma : ∀ c ∈ l.afterComma, cc.isWs c = true
+  sep : ∀ c ∈ sep, cc.isWs c = true
+  gap : i.operands ≠ [] → l.afterName ≠ []
+  ops : ∀ o ∈ i.operands, OperandI64 o
+
+/-- every instruction is laid out well, and the separator after an instruction is non-empty whenever another
+    instruction follows -/
+def WellLaidOut (cc : CharClass) : List (Instruction × Layout × List Char) → Prop
+  | [] => True
+  | (i, l, sep) :: rest => InsnLaidOut cc i l sep ∧ (sep ≠ [] ∨ rest = []) ∧ WellLaidOut cc rest
+
+theorem insnTextOk_of_laidOut {cc} {i l sep} (h : InsnLaidOut cc i l sep) : InsnTextOk cc (toInsnText (i, l, sep)) := by
+  refine ⟨h.name, h.afterName, h.afterComma, h.sep, ?_, opTexts_ok _ _ _ h.ops⟩
+  intro hne
+  apply h.gap
+  intro hops
+  apply hne
+  simp [toInsnText, hops, opTexts]
+
+theorem progOk_of_wellLaidOut {cc} {prog : List (Instruction × Layout × List Char)} (h : WellLaidOut cc prog) :
+    ProgOk cc (prog.map toInsnText) [] := by
+  induction prog with
+  | nil => trivial
+  | cons e rest ih =>
+    obtain ⟨i, l, sep⟩ := e
+    refine ⟨insnTextOk_of_laidOut h.1, ?_, ih h.2.2⟩
+    rcases h.2.1 with h' | h'
+    · exact .inl h'
+    · right; simp [h']
+
+theorem wellLaidOut_operands {cc} {prog : List (Instruction × Layout × List Char)} (h : WellLaidOut cc prog) :
+    ∀ i ∈ prog.map (·.1), ∀ o ∈ i.operands, OperandI64 o := by
+  induction prog with
+  | nil => intro i hi; simp at hi
+  | cons e rest ih =>
+    obtain ⟨i, l, sep⟩ := e
+    intro j hj
+    simp only [List.map_cons, List.mem_cons] at hj
+    rcases hj with hj | hj
+    · subst hj; exact h.1.ops
+    · exact ih h.2.2 j hj
+
+theorem parse_renderProg {cc} (hcc : SaneClasses cc) (lead : List Char)
+    (prog : List (Instruction × Layout × List Char)) (hl : ∀ c ∈ lead, cc.isWs c = true)
+    (hw : WellLaidOut cc prog) : parse cc (renderProg lead prog) = .ok (prog.map (·.1)) := by
+  rw [renderProg_eq, parse_progText hcc lead hl _ (progOk_of_wellLaidOut hw)]
+  simp [toInsnText_instr]
+
 end Rbpf
